@@ -4,6 +4,8 @@ import (
 	"fmt"
 	"go/token"
 	"go/types"
+	"reflect"
+	"sort"
 	"strings"
 
 	"golang.org/x/tools/go/ssa"
@@ -14,6 +16,7 @@ func init() {
 		id: "C15",
 		explanation: "Static clauses of 'workflow field mappings move exactly the mapped values; overlaps are rejected': " +
 			"(insert-only) the mapped-path trie of a workflow node never overwrites an existing entry: every map write in checkAndAddMappedPath is on the miss arm of a lookup of the same key (so a path and its prefix conflict in either order); " +
+			"(whole-input-detected) a mapping with an empty target path (FromField) is recognised as targeting the entire input, so it conflicts with every other mapping of the node in any order; (static-path-total) the static path walk never answers successfully once it has to descend into a type that is neither map, struct nor interface, at any position; (reflect-addr) no reflect.Value read with MapIndex (a non-addressable copy) or a field of it becomes the destination of a Set — struct-valued map entries are copied to an addressable value first (CanAddr-sensitive value flow through phis, Field/FieldByName and module calls); " +
 			"(overlap-checked) every way of declaring an input — direct edge, indirect (no control dependency) edge, static value — runs its target paths through that trie first and stops on its error; " +
 			"(stream-key-tolerance) the streaming mapper skips a mapping whose map key is missing in the current chunk iff its flag is set, at every position of the source path, and only the stream mapper sets the flag; " +
 			"(records-accumulate) the per-node mapping records used by compile's duplicate-target check accumulate over all predecessors; " +
@@ -21,7 +24,7 @@ func init() {
 			"(reflect-zero) in field_mapping.go no possibly-nil reflect.Type / zero reflect.Value is used unguarded (run-time type problems are errors, not panics); " +
 			"(checker-capture) handlers created per mapping do not capture loop-shared variables; (declared-type) takeOne reports the value and the DECLARED type of the very field/map element it extracted; " +
 			"(runtime-checker-installed) a checker returned by validateFieldMapping is installed on the same edge; mapping handlers have both value and stream forms.",
-		decided:    []string{"insert-only", "overlap-checked", "stream-key-tolerance", "records-accumulate", "duplicate-gate", "reflect-zero", "checker-capture", "declared-type", "runtime-checker-installed"},
+		decided:    []string{"insert-only", "whole-input-detected", "static-path-total", "reflect-addr", "overlap-checked", "stream-key-tolerance", "records-accumulate", "duplicate-gate", "reflect-zero", "checker-capture", "declared-type", "runtime-checker-installed"},
 		notDecided: []string{"that extraction/assignment computes the right value for every type shape", "that predecessor outputs are never mutated through reflect", "nil *struct intermediates on a source path (listed as observation)"},
 		run:        runC15,
 	})
@@ -74,6 +77,83 @@ func runC15(w *World, r *Report) {
 			}
 		})
 		r.Check(nErr >= 4, "C15.insert-only", "checkAndAddMappedPath conflict arms", camp.Pos(), fmt.Sprintf("%d error returns (whole-after-whole, whole-after-field, terminal-on-the-way, prefix-of-existing)", nErr), "a conflict arm is missing")
+	}
+
+	// ---- a mapping without a target field targets the whole input: it conflicts with every other mapping
+	r.Rule("C15.whole-input-detected", "checkAndAddMappedPath recognises a whole-input mapping by the emptiness of EACH target path, not only by the absence of mappings", 1)
+	{
+		var pathsParam *ssa.Parameter
+		for _, p := range camp.Params {
+			if sl, ok := p.Type().Underlying().(*types.Slice); ok {
+				if n := namedOf(sl.Elem()); n != nil && n.Obj().Name() == "FieldPath" {
+					pathsParam = p
+				}
+			}
+		}
+		if pathsParam == nil {
+			undecidedf("C15.whole-input-detected: the []FieldPath parameter of checkAndAddMappedPath not found")
+		}
+		found := false
+		instrs(camp, func(in ssa.Instruction) {
+			iff, ok := in.(*ssa.If)
+			if !ok {
+				return
+			}
+			_, x, y, ok := asCmp(iff.Cond)
+			if !ok || !isConstN(y, 0) {
+				return
+			}
+			if isLenOf(x, func(v ssa.Value) bool {
+				// an element of paths: *(&paths[i])
+				u, ok := v.(*ssa.UnOp)
+				if !ok {
+					return false
+				}
+				ia, ok := u.X.(*ssa.IndexAddr)
+				return ok && ia.X == ssa.Value(pathsParam)
+			}) {
+				// the outcome of the test matters: its "empty" arm sets a flag (a phi receives the constant true from
+				// a block it guards) or returns an error
+				empty := iff.Block().Succs[0]
+				if op, _, _, _ := asCmp(iff.Cond); op == token.NEQ || op == token.GTR {
+					empty = iff.Block().Succs[1]
+				}
+				if blockEndsInError(empty) {
+					found = true
+				}
+				// … or handles the whole-input case right there: every way on from it writes the whole-input marker
+				// (a struct{} value under the key "") or returns an error
+				if skip, _ := pathFromBlock(pathQuery{fn: camp, goal: func(x ssa.Instruction) bool {
+					ret, ok := x.(*ssa.Return)
+					return ok && isNilConst(ret.Results[0])
+				}, avoid: func(x ssa.Instruction) bool {
+					mu, ok := x.(*ssa.MapUpdate)
+					if !ok {
+						return false
+					}
+					k, isS := constString(mu.Key)
+					return isS && k == ""
+				}}, empty); !skip {
+					found = true
+				}
+				instrs(camp, func(pi ssa.Instruction) {
+					ph, ok := pi.(*ssa.Phi)
+					if !ok {
+						return
+					}
+					for i, e := range ph.Edges {
+						if b, isC := constBool(e); isC && b {
+							p := ph.Block().Preds[i]
+							if p == empty || empty.Dominates(p) {
+								found = true
+							}
+						}
+					}
+				})
+			}
+		})
+		r.Check(found, "C15.whole-input-detected", "checkAndAddMappedPath tests every target path for emptiness", camp.Pos(), "len(targetPath) == 0 is tested on the elements of paths",
+			"a mapping whose target path is empty (FromField: a field of the predecessor becomes the ENTIRE input) is treated like a field mapping that touches nothing: it never conflicts, so 'whole input + one field' is accepted in any order, and at run time the field is written into the predecessor's own map")
 	}
 
 	// ---- every way of declaring an input runs the overlap check first
@@ -237,6 +317,91 @@ func runC15(w *World, r *Report) {
 			}
 		}
 		r.Check(nTrue >= 1 && nFalse >= 1, "C15.stream-key-tolerance", "both mappers exist", fm.Pos(), fmt.Sprintf("%d tolerant (stream), %d strict", nTrue, nFalse), "the stream mapper no longer tolerates missing keys / the strict mapper is gone")
+	}
+
+	// ---- static path validation is total: a path element that has to be looked up in a type that is neither
+	// map, struct (pointer) nor interface is an error at compile time, at every position of the path
+	r.Rule("C15.static-path-total", "checkAndExtractFieldType: once the current type is no map / struct, the only outcomes are an error or 'interface: check at run time' — never a successful static answer", 1)
+	{
+		cef := w.Fn("compose", "checkAndExtractFieldType")
+		// the test `extracted.Kind() == reflect.Struct` (25): its false arm is the non-container point
+		var structIf *ssa.If
+		instrs(cef, func(in ssa.Instruction) {
+			iff, ok := in.(*ssa.If)
+			if !ok {
+				return
+			}
+			_, x, y, ok := asCmp(iff.Cond)
+			if !ok {
+				return
+			}
+			if c, ok := x.(*ssa.Call); ok && strings.HasSuffix(calleeFullName(c), ".Kind") {
+				if k, ok := constInt(y); ok && k == int64(reflect.Struct) {
+					structIf = iff
+				}
+			}
+		})
+		if structIf == nil {
+			undecidedf("C15.static-path-total: the struct-kind test of checkAndExtractFieldType not found")
+		}
+		// a "static success": return with nil error and the intermediate-interface flag false
+		isStaticSuccess := func(in ssa.Instruction) bool {
+			ret, ok := in.(*ssa.Return)
+			if !ok || len(ret.Results) != 3 {
+				return false
+			}
+			if !isNilConst(returnedValue(ret, 2)) {
+				return false
+			}
+			b, isC := constBool(returnedValue(ret, 1))
+			return isC && !b
+		}
+		falseArm := structIf.Block().Succs[1]
+		if op, _, _, _ := asCmp(structIf.Cond); op == token.NEQ {
+			falseArm = structIf.Block().Succs[0]
+		}
+		leak, wit := pathFromBlock(pathQuery{fn: cef, goal: isStaticSuccess}, falseArm)
+		r.Check(!leak, "C15.static-path-total", "checkAndExtractFieldType: non-container intermediate type", structIf.Cond.Pos(), "every way on from a non-map, non-struct type is an error or the run-time-check answer",
+			"a source/target path that descends into a scalar (or other non-container) type can pass the static check ("+wit+"): Compile accepts the mapping and the run panics in takeOne/assignOne instead of the mapping being rejected")
+	}
+
+	// ---- reflect-addr: what is read out of a map with MapIndex is a copy that cannot be written in place
+	r.Rule("C15.reflect-addr", "no reflect.Value obtained from Value.MapIndex (or a field of it) is used as the destination of a Set: a struct-valued map entry is copied to an addressable value first", 1)
+	{
+		var fns []*ssa.Function
+		for _, fn := range w.RepoFuncs("compose") {
+			if strings.HasPrefix(w.pos(fn.Pos()), "compose/field_mapping.go") {
+				fns = append(fns, fn)
+			}
+		}
+		if len(fns) < 20 {
+			undecidedf("C15.reflect-addr: only %d functions in compose/field_mapping.go", len(fns))
+		}
+		nsrc := 0
+		for _, f := range fns {
+			nsrc += len(callsNamed(f, "(reflect.Value).MapIndex"))
+		}
+		hits := reflectNonAddrHits(w, fns)
+		bySrc := map[ssa.Instruction][]string{}
+		var order []ssa.Instruction
+		for _, h := range hits {
+			if _, ok := bySrc[h.src]; !ok {
+				order = append(order, h.src)
+			}
+			bySrc[h.src] = append(bySrc[h.src], w.pos(h.sink.Pos()))
+		}
+		for i, src := range order {
+			sinks := bySrc[src]
+			sort.Strings(sinks)
+			r.Fail("C15.reflect-addr", fmt.Sprintf("%s: map entry read with MapIndex #%d is written in place", w.fname(origin(src.Parent())), i+1), src.Pos(),
+				fmt.Sprintf("the copy returned by Value.MapIndex (not addressable) can become the destination of Set at %v: a second mapping into the same struct-valued (or any-valued) map entry fails ('field not exported' / 'unaddressable value') and convertTo panics although Compile accepted the mappings", sinks))
+		}
+		if len(hits) == 0 {
+			r.OK("C15.reflect-addr", "field_mapping.go setters", w.Fn("compose", "assignOne").Pos(), fmt.Sprintf("%d MapIndex results traced through %d functions: none reaches the receiver of a Set", nsrc, len(fns)))
+		}
+		if nsrc < 2 {
+			undecidedf("C15.reflect-addr: %d MapIndex sources (floor 2)", nsrc)
+		}
 	}
 
 	// ---- records-accumulate
